@@ -17,6 +17,12 @@ CHECKS = {
     "C03": dict(level=TV, engine="fwsym+pysym", technique="metamorphic skeleton families around every fold site, each member checked against CPython by the C01 differential",
                 text="bounded translation validation of metamorphic variants (literal / variable-routed / mutated in other branches, loops, passes) around every transpile-time evaluation site",
                 note="as C01"),
+    "C04": dict(level="other", engine="fwsym+pysym", technique="inductive step: firmware shadow globals and host object fields havocked from shared symbolic variables, one call executed symbolically on both sides, SMT trace/getter equivalence; clamp safety as an SMT query on the firmware IR alone",
+                text="bounded symbolic inductive step per actuator method (arbitrary invariant-satisfying device state, literal or run-time arguments) comparing firmware IR against the real host class, plus solver-decided clamp safety for arbitrary out-of-range arguments",
+                note="trusted: as C01 plus the representation invariants of DESIGN.md Appendix A; motor duty within one PWM count; binary32 vs binary64 within 1e-4; loops bounded (blink<=3, fade steps<=4)"),
+    "C05": dict(level=TV, engine="fwsym+pysym", technique="C01 differential for N=0..3 passes + temporal monitors evaluated on every feasible symbolic firmware path; break-guard decided by the real parser on the enumerated placements",
+                text="bounded translation validation of prologue/body splitting for N in 0..3 passes, with configure-before-use / once-per-pass monitors over all feasible firmware paths",
+                note="as C01; monitors need literal pins (true for the skeletons)"),
     "C19": dict(level="other", engine="pysym", technique="symbolic execution of the real Python (z3 proxies) + SMT (QF_BV/QF_FP), inductive step",
                 text="bounded symbolic inductive step per class: object state symbolic under the representation invariant, one real method call with symbolic arguments, postconditions decided by z3/cvc5 on every feasible path; obligations the solvers do not decide are reported inconclusive",
                 note="trusted: z3/cvc5, proxy semantics (validated by stock-CPython replay of every counterexample), stated representation invariants; ints |v|<=2^31, finite doubles"),
